@@ -127,6 +127,45 @@ def target(contract):
     return func
 
 
+def slice_result_expr(body_slice, stop_stmt, func_node=None):
+    """the expression a prefix slice returns.  Either the literal `result` expression, or - independent of how the
+    function names its locals - the arguments of the call the slice stops at:
+    result_call = {'func': dotted name, 'signature': [parameter names in order], 'pick': [names]}  gives the tuple of
+    the picked arguments of the first call to `func` inside the stop statement (a missing argument is None)"""
+    rc = body_slice.get('result_call')
+
+    def local_expr(src):
+        e = ast.parse(src, mode='eval').body
+        if func_node is not None:
+            known = {a.arg for a in ast.walk(func_node.args) if isinstance(a, ast.arg)}
+            known |= {n.id for n in ast.walk(func_node) if isinstance(n, ast.Name) and isinstance(n.ctx, ast.Store)}
+            for n in ast.walk(e):
+                if isinstance(n, ast.Name) and n.id not in known:
+                    raise ValueError(f"slice result refers to '{n.id}', which is not a local of the function "
+                                     f"(renamed?): the contract's result expression needs updating")
+        return e
+    if rc is None:
+        return local_expr(body_slice['result'])
+
+    def is_target(f):
+        name = ast.unparse(f)
+        return name.endswith(rc['func'][1:]) if rc['func'].startswith('*.') else name == rc['func']
+    for n in ast.walk(stop_stmt):
+        if isinstance(n, ast.Call) and is_target(n.func):
+            given = {}
+            for name, a in zip(rc['signature'], n.args):
+                if isinstance(a, ast.Starred):
+                    raise ValueError("starred argument in the call the slice stops at")
+                given[name] = a
+            for kw in n.keywords:
+                if kw.arg is None:
+                    raise ValueError("** argument in the call the slice stops at")
+                given[kw.arg] = kw.value
+            return ast.Tuple(elts=[given.get(k, ast.Constant(value=None)) for k in rc['pick']] +
+                             [local_expr(x) for x in rc.get('then', [])], ctx=ast.Load())
+    raise ValueError(f"no call of {rc['func']} in the statement the slice stops at")
+
+
 def sliced_function(func, body_slice):
     """native twin of verify.sliced_node: the same mechanical prefix / suffix of the real function's body,
     compiled in the function's own globals (so that a replay runs exactly the analysed statements)"""
@@ -155,15 +194,15 @@ def sliced_function(func, body_slice):
                                   kwonlyargs=[], kw_defaults=[], kwarg=None, defaults=[])
     else:
         body = []
-        found = False
+        found = None
         for st in node.body:
             if body_slice['stop_before'] in seg(st):
-                found = True
+                found = st
                 break
             body.append(st)
-        if not found:
+        if found is None:
             raise ValueError(f"slice marker {body_slice['stop_before']!r} not found")
-        ret = ast.Return(value=ast.parse(body_slice['result'], mode='eval').body)
+        ret = ast.Return(value=slice_result_expr(body_slice, found, node))
         node.body = body + [ret]
     node.decorator_list = []
     ast.fix_missing_locations(tree)
